@@ -143,9 +143,10 @@ func VerifyParts(alg int64, protectedBS, payload, sig []byte, pub crypto.PublicK
 			d := sha512.Sum512(tbs)
 			digest, size = d[:], 66
 		}
-		if (k.Curve.Params().BitSize+7)/8 != size {
-			return errors.New("curve does not match algorithm")
-		}
+		// RFC 9053 2.1: r and s each take the byte length of the KEY (the curve);
+		// the algorithm only fixes the hash function
+		_ = size
+		size = (k.Curve.Params().BitSize + 7) / 8
 		if len(sig) != 2*size {
 			return errors.New("bad signature length")
 		}
